@@ -851,7 +851,10 @@ class Scheduler:
                 self.buffer_tensor(
                     encoded_weights,
                     weight_tensor_purpose,
-                    encoded_weights.double_buffer_sizes[0],
+                    # A single buffer holds every slice, a double buffer only every other one
+                    encoded_weights.double_buffer_sizes[0]
+                    if weight_tensor_purpose == TensorSubPurpose.DoubleBuffer
+                    else weight_buffer_size,
                     weight_tensor.name + "_buffer",
                 )
             ]
@@ -867,7 +870,8 @@ class Scheduler:
             # Note! OFM depth slices define slices as [0, s1, ... sn]. For example, [0, 70, 140] describes two slices
             # (0-70 and 70-140) but has a length of 3, which would result in idx = 3 % 2 = 1 if two buffers were used.
             last_used_buffer_idx = len(cost.ofm_depth_slices) % len(cost.buffered_weight_tensors)
-            weight_buffer_size = encoded_weights.double_buffer_sizes[last_used_buffer_idx]
+            if weight_tensor_purpose == TensorSubPurpose.DoubleBuffer:
+                weight_buffer_size = encoded_weights.double_buffer_sizes[last_used_buffer_idx]
 
             if ref_cost.cascade == 0:
                 # Determine if the lifetime can be extended and pre-buffer the first weight buffer
@@ -938,7 +942,9 @@ class Scheduler:
                     self.buffer_tensor(
                         weight_tensor,
                         buffered_tens.sub_purpose,
-                        weight_tensor.double_buffer_sizes[idx],
+                        weight_tensor.double_buffer_sizes[idx]
+                        if len(ref_cost[sched_op].buffered_weight_tensors) > 1
+                        else min(len(weight_tensor.buffer), weight_tensor.max_range_bytes()),
                         buffered_tens.name,
                     )
                 )
